@@ -362,11 +362,11 @@ func BuildGenesis(a *app.ElysApp, cfg Config, all []*Actor, feeders []*Actor, vo
 	ap := atypes.DefaultGenesis()
 	og := oracletypes.DefaultGenesis()
 	for _, d := range cfg.Denoms {
-		ap.EntryList = append(ap.EntryList, atypes.Entry{BaseDenom: d.Denom, Denom: d.Denom, Decimals: d.Decimals, DisplayName: d.Display, CommitEnabled: true, WithdrawEnabled: true})
+		ap.EntryList = append(ap.EntryList, atypes.Entry{Authority: authtypes.NewModuleAddress(govtypes.ModuleName).String(), BaseDenom: d.Denom, Denom: d.Denom, Decimals: d.Decimals, DisplayName: d.Display, CommitEnabled: true, WithdrawEnabled: true})
 		og.AssetInfos = append(og.AssetInfos, oracletypes.AssetInfo{Denom: d.Denom, Display: d.Display, Decimal: d.Decimals})
 	}
 	for _, d := range []string{"ueden", "uedenb"} {
-		ap.EntryList = append(ap.EntryList, atypes.Entry{BaseDenom: d, Denom: d, Decimals: 6, DisplayName: d, CommitEnabled: true, WithdrawEnabled: true})
+		ap.EntryList = append(ap.EntryList, atypes.Entry{Authority: authtypes.NewModuleAddress(govtypes.ModuleName).String(), BaseDenom: d, Denom: d, Decimals: 6, DisplayName: d, CommitEnabled: true, WithdrawEnabled: true})
 	}
 	gs[atypes.ModuleName] = cdc.MustMarshalJSON(ap)
 	for _, f := range feeders {
